@@ -10,6 +10,7 @@ from .calls import Calls
 from .methods import ValueMethods
 from .contracts import REGISTRY
 from .ctx import Ctx, PathEnd, Unsupported, ReturnEx, BreakEx, ContinueEx, PyExc
+from .vals import to_int as to_int_
 from .interp import Frame, assigned_names, exc_subclass, register_exc_classes, _MISSING
 from .stmts import Exec, gsub
 from .vals import (is_sym, to_int, SStream, SObj, SRec, SBytes, Code, SList, IntS)
@@ -240,6 +241,10 @@ def run_path(I, c, fn, module, res):
             for cls, cond in list(c.raises.items()) + list(c.own_raises.items()):
                 g = I.as_goal(I.pure_eval(cond, old))
                 ctx.oblige(I.oname('raises-iff[%s]' % cls, None), z3.Not(g), 'raises')
+            if getattr(c, 'pure_fn', False):
+                # declared pure: every stream reachable from the parameters is where it was
+                for st_old, st_new in zip(I.models.reachable_streams(old), I.models.reachable_streams(pf)):
+                    ctx.oblige(I.oname('pure[%s.pos]' % st_new.name, None), to_int_(st_new.pos) == to_int_(st_old.pos), 'post')
             # frame: state reachable from the parameters that differs from the entry state must be
             # declared (modifies / sets / yield_havoc); callers rely on everything else being unchanged
             declared = set(c.modifies) | set(c.yield_havoc) | {'self.' + k for k in list(c.sets) + list(c.sets_if) + list(c.sets_shape)}
